@@ -140,6 +140,11 @@ def check_fill(out: Outcome, s: np.ndarray, tag: str):
     if not np.array_equal(tr.states, s):
         out.fail('property', 'views-altered-states', {'via': 'fill', 's': s.T.tolist()[:4]}, expected='states unchanged',
                  observed=np.array(tr.states).T.tolist()[:4], note='states_prev()/states_next() modified Transitions.states')
+    for nm, arr in (('states-prev', prev), ('states-next', nxt)):
+        if arr.shape != s.shape:
+            out.fail('property', nm, {'via': 'fill', 's': s.T.tolist()[:4]}, expected=f'an array of shape {s.shape} (frames x atoms of THIS object)',
+                     observed=f'shape {arr.shape}', note='the view does not even have the shape of the states it was asked for')
+            return
     lines = []
     for a in range(A):
         lines.append((f'f{a}', f'ffill {enc_list(s[:, a])}'))
@@ -228,6 +233,12 @@ def check_public(out: Outcome, s: np.ndarray, i: np.ndarray, tag: str):
                      expected=want, observed=rows.get(a, []))
     # previous / next site views of the object the public pipeline built (its own array types)
     prev, nxt = np.array(tr.states_prev()), np.array(tr.states_next())
+    for nm, arr in (('states-prev', prev), ('states-next', nxt)):
+        if arr.shape != s.shape:
+            out.fail('property', nm, {'via': 'public', 'frames': int(s.shape[0]), 's': s.T.tolist() if s.shape[0] <= 400 else 'omitted (long run)'},
+                     expected=f'an array of shape {s.shape} (frames x atoms of THIS object)', observed=f'shape {arr.shape}',
+                     note='the view does not even have the shape of the states it was asked for')
+            return
     for a in range(s.shape[1]):
         wp, wn = hist.spec_ffill(s[:, a]), hist.spec_bfill(s[:, a])
         if prev[:, a].tolist() != wp or nxt[:, a].tolist() != wn:
